@@ -10,6 +10,9 @@ import (
 	"verifh/vlib"
 )
 
+// coldSlots bounds the number of operations per curve (the curve packages ignore indices beyond their list)
+const coldSlots = 96
+
 type curveEntryRunC18 struct {
 	name string
 	run  func(r *vlib.Run, g string)
@@ -35,6 +38,25 @@ func main() {
 		}
 		names = append(names, g)
 		bodies[g] = func() { r.RunShard(g, 0, nil) }
+	}
+	// cold starts: every operation once as the FIRST computation of a fresh process (only the shared argument objects
+	// have been built), compared with its result after all operations have run - lazily initialised globals must not make
+	// a result depend on what the process did before. One worker process per (curve, operation index); indices beyond the
+	// curve's operation list return at once.
+	for _, c := range curvesRunC18 {
+		for i := 0; i < coldSlots; i++ {
+			c := c
+			g := fmt.Sprintf("H/%s#cold%d", c.name, i)
+			if sh := r.Shard(); sh != "" {
+				if sh == g {
+					c.run(r, g)
+					r.Finish()
+				}
+				continue
+			}
+			names = append(names, g)
+			bodies[g] = func() { r.RunShard(g, 0, nil) }
+		}
 	}
 	// engine S: concurrent callers over lazily initialised / pooled globals, one worker process per scenario
 	for _, kind := range c_bn254.C18SKinds {
